@@ -310,6 +310,9 @@ def run(ctx: Ctx):
     # ... and the excited-state extended-Lagrangian engine XL_ESMD (its checkpoints could not be resumed at all before eb27277)
     sh_cases.append({"sc": dict(engine="xlesmd", mols=[["ch2o"], ["h2o"]][ctx.seed % 2], molid=[0], cad=dict(data=1, coordinates=1, velocities=1, forces=1, ckpt=[4, 3][ctx.seed % 2]), steps=[8, 7][ctx.seed % 2],
                                 dt=0.2, temp=300.0, n_states=3, k=[6, 4][ctx.seed % 2], reuse_P=bool(ctx.seed % 2), seed=int(ctx.rng.integers(1, 999))), "stop_at": [4, 3][ctx.seed % 2]})
+    # ... with the Krylov kernel (its excited-state kernel update was not checkpointed before af1f500)
+    sh_cases.append({"sc": dict(engine="xlesmd", mols=["ch2o"], molid=[0], cad=dict(data=1, coordinates=1, velocities=1, forces=1, ckpt=4), steps=7, dt=0.2, temp=300.0, n_states=3, k=6,
+                                max_rank=int(ctx.rng.integers(2, 4)), reuse_P=False, seed=int(ctx.rng.integers(1, 999))), "stop_at": 4})
     for inp, r in zip(sh_cases, mdh.pmap(probe_sh_resume, sh_cases, timeout=1500)):
         if isinstance(r, Exception) or r is None:
             ctx.obligation("sh_resume harness", False, repr(r)[:800], kind="harness")
